@@ -532,6 +532,15 @@ impl<'tcx> Ctx<'tcx> {
                             }
                         }
                     }
+                    if let Some(term) = &bb.terminator {
+                        if let TerminatorKind::Call { args, .. } = &term.kind {
+                            for a in args.iter() {
+                                if let Operand::Constant(c) = &a.node {
+                                    items.push(self.constant(did, c));
+                                }
+                            }
+                        }
+                    }
                 }
                 arr.push(J::Arr(items));
             }
